@@ -346,14 +346,17 @@ __all__""")]),
             emit.file(parsed_ast, filename, mode="wt", skip_black=False)""",
          """        emit.file(parsed_ast, filename, mode="wt", skip_black=False)""")]),
     dict(id="file2b-no-inequality-guard", kind=B, props=["C10"], expect="FILE-2b", edits=[("conformance.py",
-         """    if not cmp_ast(original_node, replacement_node):""", """    if original_node is not None:""")]),
+         """    if not cmp_ast(
+        original_node,
+        ast_parse(to_code(replacement_node), skip_docstring_remit=True).body[0],
+    ):""", """    if original_node is not None:""")]),
     dict(id="file2c-skip-on-weaker-condition", kind=B, props=["C09"], expect="FILE-2c", edits=[("conformance.py",
          """    replaced = False
-    if not cmp_ast(original_node, replacement_node):""",
+    # Compared as it reads back from source""",
          """    if getattr(original_node, "name", None) == getattr(replacement_node, "name", None) and len(original_node.body) == len(replacement_node.body):
         return filename, False
     replaced = False
-    if not cmp_ast(original_node, replacement_node):""")]),
+    # Compared as it reads back from source""")]),
     dict(id="file3-render-inside-open", kind=B, props=["C20"], expect="FILE-3", edits=[("emit.py",
          """    with open(filename, mode) as f:
         f.write(src)""", """    with open(filename, mode) as f:
